@@ -73,6 +73,7 @@ var c13Contexts = []string{
 	"-(%s)", "!(%s)", "(%s) + 1", "1 - (%s)", "arr[%s]", "arr[%s:]", "arr[0:%s]", "arr[%s:2]", "(%s)[0]", "(%s)[1:]", "[0, %s]", "{%s: 1}", "{1: %s}", "{\"k\": %s}.k",
 	"if %s {1} else {2}", "if true {%s}", "if false {1} else {%s}", "if false {1} else if %s {2}", "for zk = %s {break}", "for zk = 0:%s {break}", "for zk = %s:3 {break}", "for %s {break}", "for 2 {%s}",
 	"func() {return %s}()", "zx => %s", "(zx => zx)(%s)", "len([%s])", "mm[%s] = 1", "mm.k = %s", "mm[0] = %s", "zv = %s", "zv := %s", "catch(%s)", "(%s).k", "arr[%s][0]", "%s == 1 && true", "false || %s",
+	"(func(za, ..) {[%s, ..]})(1, 2, 3)", "func zvar(za, ..) {len(..) + (%s)}", "zl = (a, ..) => {%s}; zl(1, 2)",
 	"del(mm[%s])", "println(1, %s)", "[1, 2, 3][%s:][0]", "(%s)(1)", "first([%s])", "{\"a\": [%s]}",
 }
 
@@ -241,6 +242,12 @@ func (p c13) session(c *fw.Ctx) (inputs, expected []string, calls int) {
 			}
 		}
 		flush()
+		// an input that ends in a recovered panic (recursion past the depth limit) between two inputs: the macros
+		// defined so far must survive it
+		if in < nIn-1 && r.IntN(4) == 0 {
+			inputs = append(inputs, "(func(zn) {1 + self(zn + 1)})(0)")
+			expected = append(expected, "(func(zn) {1 + self(zn + 1)})(0)")
+		}
 	}
 	return inputs, expected, calls
 }
@@ -290,8 +297,8 @@ func (p c13) check(c *fw.Ctx, inputs, expected []string) (kind, detail string, e
 		}
 	}
 	// evaluation: session with macros vs hand-substituted session
-	a := runSession(inputs, sessCfg{}, 3*time.Second)
-	b := runSession(expected, sessCfg{}, 3*time.Second)
+	a := runSession(inputs, sessCfg{maxDepth: 300}, 3*time.Second)
+	b := runSession(expected, sessCfg{maxDepth: 300}, 3*time.Second)
 	if anyTimeout(a) || anyTimeout(b) {
 		return "", "", expanded
 	}
